@@ -71,6 +71,8 @@ func (c *c11Ctx) finish(err error) {
 }
 func (c *c11Ctx) isDone() bool { return c.Err() != nil }
 
+const c11Watchdog = 20 * time.Second // real time; a case takes milliseconds
+
 var (
 	c11ErrDial  = errors.New("c11: dial failed")
 	c11ErrWrite = errors.New("c11: write failed")
@@ -384,6 +386,7 @@ type c11Run struct {
 	steps   []c11Step
 	obs     []c11Obs
 	sig     map[string]bool
+	skipped int // scripted steps (adversarial scenario only) that were not enabled
 }
 
 func c11ErrClass(err error) string {
@@ -463,11 +466,19 @@ func (r *c11Run) apply(s c11Step, rnd *vfRand) {
 		w.mu.Lock()
 		g := w.dialGates[s.T]
 		w.mu.Unlock()
+		if g == nil {
+			r.skipped++
+			return
+		}
 		g.ch <- s.Ok
 	case "write":
 		w.mu.Lock()
 		g := w.writeGates[s.T]
 		w.mu.Unlock()
+		if g == nil {
+			r.skipped++
+			return
+		}
 		g.ch <- s.Ok
 	case "answer":
 		w.mu.Lock()
@@ -559,12 +570,17 @@ func (r *c11Run) observe() c11Obs {
 }
 
 func (r *c11Run) do(s c11Step, rnd *vfRand) {
+	r.w.mu.Lock()
+	r.steps = append(r.steps, s) // before the action: a watchdog report includes the step that hung
+	r.w.mu.Unlock()
 	r.apply(s, rnd)
 	synctest.Wait()
 	time.Sleep(time.Millisecond) // distinct virtual instants for distinct steps
 	synctest.Wait()
-	r.steps = append(r.steps, s)
-	r.obs = append(r.obs, r.observe())
+	o := r.observe()
+	r.w.mu.Lock()
+	r.obs = append(r.obs, o)
+	r.w.mu.Unlock()
 }
 
 // reader returns the thread blocked in the read of stream st, or -1.
@@ -604,7 +620,7 @@ func c11PickProfile(r *vfRand, i int) c11Profile {
 }
 
 // c11Case runs one case inside a bubble.
-func c11Case(t *testing.T, rnd *vfRand, i int) (r *c11Run, prof c11Profile) {
+func c11Case(t *testing.T, rnd *vfRand, i int, partial **c11Run) (r *c11Run, prof c11Profile) {
 	prof = c11PickProfile(rnd, i)
 	w := &c11World{dialGates: map[int]*c11Gate{}, writeGates: map[int]*c11Gate{}, writeStrm: map[int]*c11Stream{},
 		done: map[int]string{}, readStart: map[int]time.Time{}}
@@ -614,6 +630,7 @@ func c11Case(t *testing.T, rnd *vfRand, i int) (r *c11Run, prof c11Profile) {
 	h := &c11Host{w: w, ps: &c11Pstore{}}
 	ms := NewMessageSenderImpl(h, []protocol.ID{"/c11/kad/1.0.0"}).(*messageSenderImpl)
 	r = &c11Run{w: w, ms: ms, calls: map[int]*c11Call{}, disc: map[int]bool{}, sig: map[string]bool{}}
+	*partial = r
 	for c := 0; c < prof.ncalls; c++ {
 		k := "req"
 		if rnd.Chance(prof.msgPct) {
@@ -830,7 +847,7 @@ func c11Signature(r *c11Run) []string {
 		}
 		for _, n := range open {
 			if n > 1 {
-				sig["two-open-after-disc"] = true
+				sig["two-open-streams"] = true
 			}
 		}
 		for _, t := range o.Threads {
@@ -882,6 +899,9 @@ func c11Adversarial(t *testing.T, cs *vfCases) {
 		if res != "" {
 			out = "request-got:" + res
 		}
+		if r.skipped > 0 {
+			out = "scenario-not-followed"
+		}
 		cs.Count("adversarial:remote-answers-SendMessage:"+out, 1)
 		r.calls[1].ctx.finish(context.Canceled)
 		w.mu.Lock()
@@ -908,17 +928,38 @@ func TestVerifC11(t *testing.T) {
 		if only >= 0 && i != only {
 			continue
 		}
-		var r *c11Run
+		var r, partial *c11Run
 		var prof c11Profile
 		panicked := ""
-		func() {
+		finished := make(chan struct{})
+		go func() {
+			defer close(finished)
 			defer func() {
 				if e := recover(); e != nil {
 					panicked = fmt.Sprint(e)
 				}
 			}()
-			synctest.Test(t, func(t *testing.T) { r, prof = c11Case(t, rnd, i) })
+			synctest.Test(t, func(t *testing.T) { r, prof = c11Case(t, rnd, i, &partial) })
 		}()
+		select {
+		case <-finished:
+		case <-time.After(c11Watchdog):
+			// A goroutine of the bubble is blocked on something synctest does not see as durable
+			// (a sync.Mutex): e.g. two reads on one msgio reader because a stream whose read was
+			// abandoned was not reset.  The stuck goroutines cannot be stopped: report and stop.
+			var steps []c11Step
+			if partial != nil {
+				partial.w.mu.Lock()
+				steps = append(steps, partial.steps...)
+				partial.w.mu.Unlock()
+			}
+			idx := cs.Add("{| c_steps := []; c_impl := [] |}", map[string]any{"case": i, "seed": seed, "hang": true, "steps": steps}, "")
+			cs.Fail(idx, "hang: the code under test blocked on a non-durable primitive after these steps", steps)
+			if err := cs.Flush(); err != nil {
+				t.Fatal(err)
+			}
+			return
+		}
 		if r == nil {
 			idx := cs.Add("{| c_steps := []; c_impl := [] |}", map[string]any{"case": i, "seed": seed, "panic": panicked}, "")
 			cs.Fail(idx, "harness bubble failed", panicked)
